@@ -95,7 +95,7 @@ class C18(Cfg):
                 res.append(("subscriber-lagged", "%s -> %s" % (op, out))); break
             if status.startswith("err:"):
                 continue        # not acknowledged: nothing to announce
-            after = toks[toks.index("W") + 1:] if "W" in toks else toks
+            after = toks[len(toks) - toks[::-1].index("W"):] if "W" in toks else toks
             announced = set()
             for t in after:
                 c = data_cells(t)
@@ -106,6 +106,8 @@ class C18(Cfg):
                     sig = "reference-deletion-redates-row-unannounced"
                 elif k == "stream" and a.get("mode") == "early":
                     sig = "stream-recompute-requested-before-acknowledgements"
+                elif k == "stream":
+                    sig = "streamed-change-unannounced"
                 else:
                     sig = "unannounced-change"
                 res.append((sig, "%s: cells %s gained content but no data-changed event of the operation names them (%s)" % (
